@@ -43,131 +43,243 @@ def _term_of(expr, env, lhs):
     raise Unsupported(type(expr).__name__)
 
 
-def simplify_paths(ctx, f):
-    """decision paths of regexp_simplify: [(constructor, {child var: class or None}, extra conditions, result expr, stmt)]"""
-    out = []
-    top = [s for s in f.node.body if isinstance(s, ast.If)]
-    if not top:
-        return out, []
-    issues = []
-    for (t, body) in _if_chain(top[0]):
-        if t is None:
-            continue
-        tests = _isinstance_classes(ctx, f, t)
-        if not tests:
-            continue
-        for (K, _) in tests[0][1]:
-            if K not in REGEXP_FIELDS:
+CLASSES = ('Zero', 'One', 'Symbol', 'Iteration', 'Sum', 'Concat')
+
+
+class _NeedChoice(Exception):
+    def __init__(self, key, options):
+        self.key = key
+        self.options = options
+
+
+class _Case:
+    """one run of the function body under fixed choices: class of r, classes of the simplified children (chosen
+    lazily, when an isinstance test asks), truth values of side conditions that are not class tests"""
+
+    def __init__(self, ctx, f, choices):
+        self.ctx = ctx
+        self.f = f
+        self.choices = choices
+        self.children = {}       # var -> field of r
+        self.alias = {}          # var -> expr (other single assignments)
+        self.result = None       # (expr, stmt)
+        self.atoms = []          # side conditions consulted: (text, value)
+
+    def choose(self, key, options):
+        if key not in self.choices:
+            raise _NeedChoice(key, options)
+        return self.choices[key]
+
+    def class_of(self, name):
+        if name == 'r':
+            return self.choose('r', CLASSES)
+        if name in self.children:
+            return self.choose('child:' + name, CLASSES)
+        if name in self.alias and isinstance(self.alias[name], ast.Name):
+            return self.class_of(self.alias[name].id)
+        raise Unsupported('class of ' + name)
+
+    def truth(self, t):
+        if isinstance(t, ast.Constant):
+            return bool(t.value)
+        if isinstance(t, ast.UnaryOp) and isinstance(t.op, ast.Not):
+            return not self.truth(t.operand)
+        if isinstance(t, ast.BoolOp):
+            if isinstance(t.op, ast.And):
+                for v in t.values:
+                    if not self.truth(v):
+                        return False
+                return True
+            for v in t.values:
+                if self.truth(v):
+                    return True
+            return False
+        if isinstance(t, ast.Call) and isinstance(t.func, ast.Name) and t.func.id == 'isinstance' and len(t.args) == 2 and isinstance(t.args[0], ast.Name):
+            k = self.class_of(t.args[0].id)
+            elts = t.args[1].elts if isinstance(t.args[1], ast.Tuple) else [t.args[1]]
+            names = [u(x).split('.')[-1] for x in elts]
+            if 'Regexp' in names:
+                return True
+            return k in names
+        # any other condition is a side condition with an unknown truth value
+        text = u(t)
+        v = self.choose('atom:' + text, (True, False))
+        self.atoms.append((t, v))
+        return v
+
+    def run(self, stmts):
+        """returns True when a return/raise ended the run"""
+        for st in stmts:
+            if isinstance(st, ast.Expr) and isinstance(st.value, ast.Constant):
                 continue
-            child_of = {}
-            for st in body:
-                if isinstance(st, ast.Assign) and isinstance(st.targets[0], ast.Name) and isinstance(st.value, ast.Call) and ctx.callee_name(f, st.value) == f.name:
-                    a = st.value.args[0]
-                    if isinstance(a, ast.Attribute):
-                        child_of[st.targets[0].id] = a.attr
-            missing = REGEXP_FIELDS[K] - set(child_of.values()) - ({'symbol'})
-            if missing:
-                issues.append((K, 'the child {} of {} is not simplified before the node is rebuilt'.format(sorted(missing), K), t))
-            inner = [s for s in body if isinstance(s, ast.If)]
-            direct = [s for s in body if isinstance(s, ast.Assign) and isinstance(s.targets[0], ast.Name) and s.targets[0].id == 'result']
-            if not inner:
-                for s in direct:
-                    out.append((K, child_of, {}, [], s.value, s))
-                continue
-            prior = []
-            for (ct, cbody) in _if_chain(inner[0]):
-                res = [s for s in cbody if isinstance(s, ast.Assign) and isinstance(s.targets[0], ast.Name) and s.targets[0].id == 'result']
-                if not res:
-                    continue
-                if ct is None:
-                    out.append((K, child_of, {}, [], res[0].value, res[0]))
-                    continue
-                its = _isinstance_classes(ctx, f, ct)
-                other = []
-                for a in atoms_of(ct, True):
-                    if a[0] != 'isinstance':
-                        other.append(a)
-                if its and not other and isinstance(ct, ast.Call):
-                    var, classes = its[0]
-                    for (cls, _) in classes:
-                        out.append((K, child_of, {var: cls}, [], res[0].value, res[0]))
+            if isinstance(st, ast.Assign) and len(st.targets) == 1 and isinstance(st.targets[0], ast.Name):
+                name = st.targets[0].id
+                v = st.value
+                if isinstance(v, ast.Call) and self.ctx.callee_name(self.f, v) == self.f.name and v.args and isinstance(v.args[0], ast.Attribute) and u(v.args[0].value) == 'r':
+                    self.children[name] = v.args[0].attr
+                elif name == 'result':
+                    self.result = (v, st)
                 else:
-                    cons = {}
-                    for var, classes in its:
-                        if len(classes) == 1:
-                            cons[var] = classes[0][0]
-                    out.append((K, child_of, cons, other, res[0].value, res[0]))
-    return out, issues
+                    self.alias[name] = v
+                continue
+            if isinstance(st, ast.If):
+                if self.truth(st.test):
+                    if self.run(st.body):
+                        return True
+                elif self.run(st.orelse):
+                    return True
+                continue
+            if isinstance(st, ast.Return):
+                if st.value is not None and not (isinstance(st.value, ast.Name) and st.value.id == 'result'):
+                    self.result = (st.value, st)
+                return True
+            if isinstance(st, ast.Raise):
+                self.result = None
+                return True
+            if isinstance(st, (ast.Pass, ast.Expr, ast.Assert)):
+                continue
+            raise Unsupported('statement {} in {}'.format(type(st).__name__, self.f.name))
+        return False
+
+
+def simplify_cases(ctx, f):
+    """all runs of regexp_simplify over (class of r) x (classes of its simplified children, as far as tested) x (truth
+    values of the other conditions consulted)"""
+    cases = []
+    stack = [{}]
+    while stack:
+        ch = stack.pop()
+        c = _Case(ctx, f, ch)
+        try:
+            c.run(f.node.body)
+        except _NeedChoice as nc:
+            for o in nc.options:
+                d = dict(ch)
+                d[nc.key] = o
+                stack.append(d)
+            continue
+        cases.append(c)
+        if len(cases) > 5000:
+            raise Unsupported('too many cases')
+    return cases
 
 
 def check_simplify(ctx, rep, f, rule='R-MODEL.M3'):
-    paths, issues = simplify_paths(ctx, f)
-    for (K, msg, node) in issues:
-        rep.violates(rule, f, node, msg)
+    try:
+        cases = simplify_cases(ctx, f)
+    except Unsupported as e:
+        rep.undecided(rule, f, 'def ' + f.name, 'body outside the fragment: {}'.format(e))
+        return 0
+    groups = {}
     extracted = []
-    for (K, child_of, cons, other, result, stmt) in paths:
+    for c in cases:
+        K = c.choices.get('r')
+        if K is None:
+            continue
+        if c.result is None:
+            rep.violates(rule, f, 'isinstance(r, {})'.format(K), 'regexp_simplify raises / returns nothing for a {} node'.format(K))
+            continue
+        expr, stmt = c.result
+        by_field = {fld: var for var, fld in c.children.items()}
+        missing = REGEXP_FIELDS[K] - set(by_field) - {'symbol'}
+        key = (K, id(stmt))
+        g = groups.setdefault(key, {'K': K, 'stmt': stmt, 'bad': None, 'n': 0, 'und': None, 'texts': [], 'weak': False})
+        g['n'] += 1
+        if missing and not (isinstance(expr, ast.Name) and expr.id == 'r'):
+            g['bad'] = g['bad'] or 'the child {} of {} is not simplified before the node is rebuilt'.format(sorted(missing), K)
+            continue
         counter = itertools.count()
-        fresh = lambda: 'abcdefgh'[next(counter)]
+        fresh = lambda: 'abcdefghijklm'[next(counter)]
         env = {}
+        feasible = True
         same = None
         printed_eq = False
-        unknown = False
+        unknown_true = []
         nullable_vars = set()
-        for a in other:
-            mnull = re.fullmatch(r"regexp_accepts_word\((\w+), ''\)", a[1]) if a[0] == 'truthy' and a[3] is True else None
-            if mnull and mnull.group(1) in child_of:
-                nullable_vars.add(mnull.group(1))     # side condition "the child matches the empty word"
+        non_nullable_vars = set()
+        for (t, v) in c.atoms:
+            text = u(t)
+            mnull = re.fullmatch(r"regexp_accepts_word\((\w+), ''\)", text)
+            if mnull and mnull.group(1) in c.children:
+                (nullable_vars if v else non_nullable_vars).add(mnull.group(1))
                 continue
-            if a[0] == 'eq' and a[3] is True and a[1] in child_of and a[2] in child_of:
-                same = (a[1], a[2])
-            elif a[0] == 'eq' and a[3] is True and re.fullmatch(r'(str|print_regexp\w*)\((\w+)\)', a[1]) and re.fullmatch(r'(str|print_regexp\w*)\((\w+)\)', a[2]):
-                printed_eq = True
-            else:
-                unknown = True
-        for var, fld in child_of.items():
-            if var in cons:
-                env[var] = LEAF[cons[var]](fresh)
+            if isinstance(t, ast.Compare) and len(t.ops) == 1 and isinstance(t.ops[0], (ast.Eq, ast.NotEq)):
+                a, b = u(t.left), u(t.comparators[0])
+                is_eq = isinstance(t.ops[0], ast.Eq) == bool(v)
+                if a in c.children and b in c.children:
+                    if is_eq:
+                        same = (a, b)
+                    continue
+                if re.fullmatch(r'(str|print_regexp\w*)\((\w+)\)', a) and re.fullmatch(r'(str|print_regexp\w*)\((\w+)\)', b):
+                    if is_eq:
+                        printed_eq = True
+                    continue
+            if v:
+                unknown_true.append(text)
+        for var, fld in c.children.items():
+            k = c.choices.get('child:' + var)
+            if k is not None:
+                # a side condition on nullability must be compatible with the class of the operand
+                if (var in nullable_vars and k in ('Zero', 'Symbol')) or (var in non_nullable_vars and k in ('One', 'Iteration')):
+                    feasible = False
+                env[var] = LEAF[k](fresh)
+                if var in nullable_vars and k in ('Sum', 'Concat'):
+                    env[var] = ('+', ka.ONE, env[var])
             elif var in nullable_vars:
-                env[var] = ('+', ka.ONE, ka.sym(fresh()))     # r is nullable iff r = 1 + r
+                env[var] = ('+', ka.ONE, ka.sym(fresh()))
             else:
                 env[var] = ka.sym(fresh())
+        if not feasible:
+            g['n'] -= 1
+            continue
         if same:
+            ka_, kb_ = c.choices.get('child:' + same[0]), c.choices.get('child:' + same[1])
+            if ka_ is not None and kb_ is not None and ka_ != kb_:
+                continue                      # structurally equal operands have the same class: infeasible case
             env[same[1]] = env[same[0]]
-        # LHS: constructor applied to its (already simplified) children, in field order
-        by_field = {fld: var for var, fld in child_of.items()}
         try:
             if K in ('Zero', 'One', 'Symbol'):
                 lhs = LEAF[K](fresh)
-                rhs = lhs if isinstance(result, ast.Name) and result.id == 'r' else _term_of(result, env, lhs)
             elif K == 'Iteration':
-                lhs = ('*', env[by_field['operand']])
-                rhs = _term_of(result, env, lhs)
+                lhs = ('*', env[by_field['operand']] if 'operand' in by_field else ka.sym(fresh()))
             else:
-                lhs = ('+' if K == 'Sum' else '.', env[by_field['left']], env[by_field['right']])
-                rhs = _term_of(result, env, lhs)
+                lhs = ('+' if K == 'Sum' else '.', env[by_field['left']] if 'left' in by_field else ka.sym(fresh()), env[by_field['right']] if 'right' in by_field else ka.sym(fresh()))
+            for name, v in c.alias.items():
+                try:
+                    env.setdefault(name, _term_of(v, env, lhs))
+                except Unsupported:
+                    pass
+            rhs = lhs if isinstance(expr, ast.Name) and expr.id == 'r' else _term_of(expr, env, lhs)
         except (Unsupported, KeyError) as e:
-            rep.undecided(rule, f, stmt, 'rewrite path outside the fragment: {}'.format(e))
+            g['und'] = g['und'] or 'result outside the fragment: {}'.format(e)
             continue
         ok, wit = ka.equivalent(lhs, rhs)
         text = '{} -> {}'.format(ka.show(lhs), ka.show(rhs))
-        extracted.append(text)
-        if ok and ka.size(rhs) <= ka.size(lhs):
-            if unknown or printed_eq:
-                rep.holds(rule, f, stmt, 'rewrite {} is a Kleene-algebra identity even without its side condition; size {} <= {}'.format(text, ka.size(rhs), ka.size(lhs)))
-            else:
-                rep.holds(rule, f, stmt, 'rewrite {} is a Kleene-algebra identity (children as fresh letters) and does not grow the expression ({} <= {})'.format(text, ka.size(rhs), ka.size(lhs)))
-        elif not ok:
+        if text not in g['texts']:
+            g['texts'].append(text)
+        if not ok:
             if printed_eq:
-                rep.violates(rule, f, stmt, 'the rewrite {} is applied when the two operands merely print alike; printing is not injective (the symbol 1 and the constant One both print as 1), and without structural equality the rewrite changes the language (e.g. the word {!r})'.format(text, wit))
-            elif unknown:
-                rep.undecided(rule, f, stmt, 'rewrite {} is not an identity by itself and its side condition {} is outside the fragment'.format(text, [(a[0], a[1], a[2]) for a in other]))
+                g['bad'] = g['bad'] or 'the rewrite {} is applied when the two operands merely print alike; printing is not injective (the symbol 1 and the constant One both print as 1), and without structural equality the rewrite changes the language (e.g. the word {!r})'.format(text, wit)
+            elif unknown_true:
+                g['und'] = g['und'] or 'rewrite {} is not an identity by itself and its side condition {} is outside the fragment'.format(text, unknown_true)
             else:
-                rep.violates(rule, f, stmt, 'the rewrite {} does not preserve the language: the two sides differ on the word {!r}'.format(text, wit))
+                when = ', '.join('{} is a {}'.format(k[6:], v) for k, v in sorted(c.choices.items()) if k.startswith('child:'))
+                g['bad'] = g['bad'] or 'the rewrite {} does not preserve the language{}: the two sides differ on the word {!r}'.format(text, ' (taken when ' + when + ')' if when else '', wit)
+        elif ka.size(rhs) > ka.size(lhs):
+            g['bad'] = g['bad'] or 'the rewrite {} grows the expression (size {} > {})'.format(text, ka.size(rhs), ka.size(lhs))
+    n = 0
+    for key, g in sorted(groups.items(), key=lambda kv: (CLASSES.index(kv[0][0]), getattr(kv[1]['stmt'], 'lineno', 0))):
+        n += 1
+        extracted += g['texts'][:3]
+        if g['bad']:
+            rep.violates(rule, f, g['stmt'], g['bad'])
+        elif g['und']:
+            rep.undecided(rule, f, g['stmt'], g['und'])
         else:
-            rep.violates(rule, f, stmt, 'the rewrite {} grows the expression (size {} > {})'.format(text, ka.size(rhs), ka.size(lhs)))
+            rep.holds(rule, f, g['stmt'], 'for a {} node this result is a Kleene-algebra identity in all {} class cases that reach it (e.g. {}), children simplified first, expression not grown'.format(g['K'], g['n'], '; '.join(g['texts'][:2])))
     rep.extra['simplify_rules_extracted'] = extracted
-    # the fall-through for unknown node kinds raises
-    return len(paths)
+    rep.extra['simplify_cases'] = len(cases)
+    return n
 
 
 def check_simplify_spec(ctx, rep, f, rule='R-MODEL.M3'):
@@ -188,34 +300,74 @@ def check_rip_step(ctx, rep, f, rule='R-MODEL.M4'):
         rep.undecided(rule, f, 'def ' + f.name, 'three nested elimination loops expected')
         return
     rip, qi, qj = (u(l.target) for l in sorted(loops, key=lambda l: l.lineno)[:3])
-    role = {}
-    for st in walk_no_nested(f.node):
-        if isinstance(st, ast.Assign) and isinstance(st.targets[0], ast.Name) and isinstance(st.value, ast.Subscript) and u(st.value.value) in ('delta', 'G.delta'):
-            k = tuple(u(x) for x in st.value.slice.elts) if isinstance(st.value.slice, ast.Tuple) else None
-            if k == (qi, rip):
-                role[st.targets[0].id] = 'a'
-            elif k == (rip, rip):
-                role[st.targets[0].id] = 'b'
-            elif k == (rip, qj):
-                role[st.targets[0].id] = 'c'
-            elif k == (qi, qj):
-                role[st.targets[0].id] = 'd'
-            elif k is not None:
-                role[st.targets[0].id] = '?' + str(k)
-    stores = [st for st in walk_no_nested(f.node) if isinstance(st, ast.Assign) and isinstance(st.targets[0], ast.Subscript) and u(st.targets[0].value) in ('delta', 'G.delta')
+    def role_of_key(k):
+        if k == (qi, rip):
+            return 'a'
+        if k == (rip, rip):
+            return 'b'
+        if k == (rip, qj):
+            return 'c'
+        if k == (qi, qj):
+            return 'd'
+        return None
+
+    bad_roles = []
+
+    def term_of(e, depth=0):
+        """Kleene-algebra term of the stored expression; reads of delta become the letters a, b, c, d by their key"""
+        if depth > 8:
+            raise Unsupported('alias chain too long')
+        if isinstance(e, ast.Name):
+            d = single_def(f, e.id)
+            if len(d) != 1:
+                raise Unsupported('name {} has {} definitions'.format(e.id, len(d)))
+            return term_of(d[0], depth + 1)
+        if isinstance(e, ast.Subscript) and u(resolve_alias(f, e.value)) in ('delta', 'G.delta'):
+            sl = e.slice
+            if isinstance(sl, ast.Name):
+                sl = resolve_alias(f, sl)
+            k = tuple(u(x) for x in sl.elts) if isinstance(sl, ast.Tuple) else None
+            r = role_of_key(k)
+            if r is None:
+                bad_roles.append(u(e))
+                raise Unsupported('read of delta[{}] has no role in the rip step'.format(', '.join(k or ('?',))))
+            return ka.sym(r)
+        if isinstance(e, ast.Call):
+            fn = e.func
+            name = fn.id if isinstance(fn, ast.Name) else (fn.attr if isinstance(fn, ast.Attribute) else None)
+            args = [term_of(a, depth + 1) for a in e.args]
+            if name == 'Zero':
+                return ka.ZERO
+            if name == 'One':
+                return ka.ONE
+            if name == 'Iteration':
+                return ('*', args[0])
+            if name == 'Sum':
+                return ('+', args[0], args[1])
+            if name == 'Concat':
+                return ('.', args[0], args[1])
+            if name == 'regexp_simplify':
+                return args[0]
+            raise Unsupported('call ' + str(name))
+        raise Unsupported(type(e).__name__)
+
+    stores = [st for st in walk_no_nested(f.node) if isinstance(st, ast.Assign) and isinstance(st.targets[0], ast.Subscript) and u(resolve_alias(f, st.targets[0].value)) in ('delta', 'G.delta')
               and any(x is st for l in loops for x in ast.walk(l))]
     if len(stores) != 1:
         rep.undecided(rule, f, 'def ' + f.name, 'single store into delta inside the loops expected')
         return
     st = stores[0]
-    key = tuple(u(x) for x in st.targets[0].slice.elts) if isinstance(st.targets[0].slice, ast.Tuple) else None
-    expr = resolve_alias(f, st.value)
-    env = {k: ka.sym(v) for k, v in role.items() if len(v) == 1}
+    ksl = st.targets[0].slice
+    if isinstance(ksl, ast.Name):
+        ksl = resolve_alias(f, ksl)
+    key = tuple(u(x) for x in ksl.elts) if isinstance(ksl, ast.Tuple) else None
     try:
-        term = _term_of(expr, env, None)
+        term = term_of(st.value)
     except Unsupported as e:
-        bad = [k for k, v in role.items() if len(v) > 1]
-        rep.violates(rule, f, st, 'the rip step reads {} with unexpected index roles ({})'.format(bad or 'an unknown value', e)) if bad else rep.undecided(rule, f, st, 'rip term outside the fragment: {}'.format(e))
+        if bad_roles:
+            rep.violates(rule, f, st, 'the rip step reads {} with unexpected index roles ({})'.format(bad_roles, e))
+        else:
+            rep.undecided(rule, f, st, 'rip term outside the fragment: {}'.format(e))
         return
     want = ('+', ('.', ka.sym('a'), ('.', ('*', ka.sym('b')), ka.sym('c'))), ka.sym('d'))
     ok, wit = ka.equivalent(term, want)
@@ -228,12 +380,12 @@ def check_rip_step(ctx, rep, f, rule='R-MODEL.M4'):
     # the ripped state is removed before the inner loops, the loops exclude accept as source and start as target
     lrip, li, lj = sorted(loops, key=lambda l: l.lineno)[:3]
     facts = {
-        'rip range excludes start and accept': all(x in u(lrip.iter) for x in ('q_start', 'q_accept')) and '-' in u(lrip.iter),
-        'source range excludes accept': 'q_accept' in u(li.iter) and '-' in u(li.iter),
-        'target range excludes start': 'q_start' in u(lj.iter) and '-' in u(lj.iter),
+        'rip range excludes start and accept': all(x in u(resolve_alias(f, lrip.iter)) for x in ('q_start', 'q_accept')) and '-' in u(resolve_alias(f, lrip.iter)),
+        'source range excludes accept': 'q_accept' in u(resolve_alias(f, li.iter)) and '-' in u(resolve_alias(f, li.iter)),
+        'target range excludes start': 'q_start' in u(resolve_alias(f, lj.iter)) and '-' in u(resolve_alias(f, lj.iter)),
     }
     removes = [n for n in lrip.body if isinstance(n, ast.Expr) and isinstance(n.value, ast.Call) and isinstance(n.value.func, ast.Attribute) and n.value.func.attr in ('remove', 'discard') and u(n.value.args[0]) == rip]
-    facts['ripped state removed from Q before the inner loops'] = bool(removes) and lrip.body.index(removes[0]) < lrip.body.index(li)
+    facts['ripped state removed from Q before the inner loops'] = bool(removes) and li in lrip.body and lrip.body.index(removes[0]) < lrip.body.index(li)
     for what, okf in facts.items():
         if okf:
             rep.holds(rule, f, what, what, nontrivial=False)
@@ -249,17 +401,38 @@ def check_gnfa_edges(ctx, rep, f, rule='R-MODEL.M4'):
         rep.undecided(rule, f, 'def ' + f.name, 'edge loop not found')
         return
     lp = loops[0]
-    stores = [s for s in ast.walk(lp) if isinstance(s, ast.Assign) and isinstance(s.targets[0], ast.Subscript)]
+    def canon(e):
+        if isinstance(e, str):
+            try:
+                e = ast.parse(e, mode='eval').body
+            except SyntaxError:
+                return e.replace(' ', '')
+        e = resolve_alias(f, e)
+        if isinstance(e, ast.Subscript):
+            k = resolve_alias(f, e.slice) if isinstance(e.slice, ast.Name) else e.slice
+            kt = u(k).replace(' ', '')
+            kt = kt[1:-1] if kt.startswith('(') and kt.endswith(')') else kt
+            return '{}[{}]'.format(u(resolve_alias(f, e.value)), kt)
+        t = u(e).replace(' ', '')
+        return t[1:-1] if t.startswith('(') and t.endswith(')') else t
+
+    stores = [s_ for s_ in ast.walk(lp) if isinstance(s_, ast.Assign) and isinstance(s_.targets[0], ast.Subscript)]
     summed = False
     plain_guarded = True
-    for s in stores:
-        v = s.value
-        key = u(s.targets[0])
-        atoms = fx.guard_atoms(fx.cfg.n_of(s))
-        present = [a for a in atoms if a[0] == 'in' and a[2] == u(s.targets[0].value)]
-        if isinstance(v, ast.Call) and ctx.callee_name(f, v) in ('Sum', 'regexp.Sum') or (isinstance(v, ast.Call) and isinstance(v.func, ast.Attribute) and v.func.attr == 'Sum'):
-            if any(u(a) == key for a in v.args) and present and present[0][3] is True:
+    for s_ in stores:
+        v = s_.value
+        tgt = canon(s_.targets[0])
+        kslice = s_.targets[0].slice
+        keyc = canon(kslice)
+        mapc = canon(s_.targets[0].value)
+        atoms = fx.guard_atoms(fx.cfg.n_of(s_))
+        present = [a for a in atoms if a[0] == 'in' and canon(a[2]) == mapc and canon(a[1]) == keyc]
+        is_sum = isinstance(v, ast.Call) and (ctx.callee_name(f, v) in ('Sum', 'regexp.Sum') or (isinstance(v.func, ast.Attribute) and v.func.attr == 'Sum'))
+        if is_sum:
+            if any(canon(a) == tgt for a in v.args) and present and present[0][3] is True:
                 summed = True
+            elif not any(canon(a) == tgt for a in v.args):
+                plain_guarded = plain_guarded and bool(present and present[0][3] is False)
         else:
             if not (present and present[0][3] is False):
                 plain_guarded = False
@@ -293,77 +466,238 @@ def _comprehension_with_calls(body, fname):
     return None, None
 
 
+class _MatcherModel:
+    """truth-table model of one run of the matcher: the class of r and |w| = n are fixed, every recursive call
+    M(child, w[lo:hi]) and the test `w == r.symbol` are boolean atoms with an assigned value; the body is evaluated
+    on booleans and small integers only (nothing of the repository runs)."""
+
+    def __init__(self, ctx, f, K, n, assign):
+        self.ctx, self.f, self.K, self.n, self.assign = ctx, f, K, n, assign
+        self.r = f.pos_params[0].arg
+        self.w = f.pos_params[1].arg
+        self.env = {}
+        self.used = set()
+
+    def atom(self, key):
+        self.used.add(key)
+        if key not in self.assign:
+            raise _NeedChoice(key, (False, True))
+        return self.assign[key]
+
+    def word(self, e, ienv):
+        """(lo, hi) of a word expression"""
+        if isinstance(e, ast.Name) and e.id == self.w:
+            return (0, self.n)
+        if isinstance(e, ast.Name) and isinstance(self.env.get(e.id), tuple) and self.env[e.id][0] == 'word':
+            return self.env[e.id][1]
+        if isinstance(e, ast.Subscript) and isinstance(e.slice, ast.Slice) and e.slice.step is None:
+            lo0, hi0 = self.word(e.value, ienv)
+            lo = self.int(e.slice.lower, ienv) if e.slice.lower is not None else 0
+            hi = self.int(e.slice.upper, ienv) if e.slice.upper is not None else (hi0 - lo0)
+            ln = hi0 - lo0
+            lo = max(0, min(ln, lo if lo >= 0 else ln + lo))
+            hi = max(0, min(ln, hi if hi >= 0 else ln + hi))
+            return (lo0 + lo, lo0 + max(lo, hi))
+        raise Unsupported('word expression ' + u(e))
+
+    def int(self, e, ienv):
+        if isinstance(e, ast.Constant) and isinstance(e.value, int) and not isinstance(e.value, bool):
+            return e.value
+        if isinstance(e, ast.Name):
+            if e.id in ienv:
+                return ienv[e.id]
+            v = self.env.get(e.id)
+            if isinstance(v, int) and not isinstance(v, bool):
+                return v
+            raise Unsupported('integer ' + e.id)
+        if isinstance(e, ast.Call) and isinstance(e.func, ast.Name) and e.func.id == 'len' and len(e.args) == 1:
+            lo, hi = self.word(e.args[0], ienv)
+            return hi - lo
+        if isinstance(e, ast.BinOp) and isinstance(e.op, (ast.Add, ast.Sub)):
+            a, b = self.int(e.left, ienv), self.int(e.right, ienv)
+            return a + b if isinstance(e.op, ast.Add) else a - b
+        if isinstance(e, ast.UnaryOp) and isinstance(e.op, ast.USub):
+            return -self.int(e.operand, ienv)
+        raise Unsupported('integer expression ' + u(e))
+
+    def child(self, e):
+        t = u(e)
+        if t == self.r:
+            return 'self'
+        if isinstance(e, ast.Attribute) and u(e.value) == self.r:
+            return e.attr
+        if isinstance(e, ast.Name) and isinstance(self.env.get(e.id), tuple) and self.env[e.id][0] == 'child':
+            return self.env[e.id][1]
+        raise Unsupported('regexp argument ' + t)
+
+    def val(self, e, ienv):
+        """boolean (or None) value of an expression"""
+        if isinstance(e, ast.Constant):
+            return e.value
+        if isinstance(e, ast.Name):
+            if e.id in self.env and not isinstance(self.env[e.id], tuple):
+                return self.env[e.id]
+            if e.id == self.w:
+                return self.n > 0          # truthiness of the word
+            raise Unsupported('name ' + e.id)
+        if isinstance(e, ast.UnaryOp) and isinstance(e.op, ast.Not):
+            return not self.val(e.operand, ienv)
+        if isinstance(e, ast.BoolOp):
+            vals = [self.val(v, ienv) for v in e.values]      # every operand is evaluated: atoms are total, order is irrelevant
+            return all(vals) if isinstance(e.op, ast.And) else any(vals)
+        if isinstance(e, ast.IfExp):
+            return self.val(e.body, ienv) if self.val(e.test, ienv) else self.val(e.orelse, ienv)
+        if isinstance(e, ast.Compare) and len(e.ops) == 1:
+            a, b, op = e.left, e.comparators[0], e.ops[0]
+            ta, tb = u(a), u(b)
+            sym = '{}.symbol'.format(self.r)
+            if {ta, tb} == {self.w, sym} and isinstance(op, (ast.Eq, ast.NotEq)):
+                v = self.atom(('symbol',)) if self.n == 1 else False
+                return v if isinstance(op, ast.Eq) else not v
+            if isinstance(op, (ast.Eq, ast.NotEq)) and (tb in ("''", '""') or ta in ("''", '""')):
+                other = a if tb in ("''", '""') else b
+                lo, hi = self.word(other, ienv)
+                return (hi == lo) if isinstance(op, ast.Eq) else (hi != lo)
+            x, y = self.int(a, ienv), self.int(b, ienv)
+            return {ast.Eq: x == y, ast.NotEq: x != y, ast.Lt: x < y, ast.LtE: x <= y, ast.Gt: x > y, ast.GtE: x >= y}[type(op)]
+        if isinstance(e, ast.Call) and isinstance(e.func, ast.Name) and e.func.id == self.f.name and len(e.args) == 2:
+            return self.atom(('M', self.child(e.args[0])) + self.word(e.args[1], ienv))
+        if isinstance(e, ast.Call) and isinstance(e.func, ast.Name) and e.func.id in ('any', 'all') and len(e.args) == 1 and isinstance(e.args[0], (ast.GeneratorExp, ast.ListComp)):
+            g = e.args[0]
+            if len(g.generators) != 1 or not isinstance(g.generators[0].target, ast.Name):
+                raise Unsupported('comprehension ' + u(g))
+            gen = g.generators[0]
+            it = gen.iter
+            if not (isinstance(it, ast.Call) and isinstance(it.func, ast.Name) and it.func.id == 'range' and 1 <= len(it.args) <= 2):
+                raise Unsupported('iteration over ' + u(it))
+            lo = self.int(it.args[0], ienv) if len(it.args) == 2 else 0
+            hi = self.int(it.args[-1], ienv)
+            vals = []
+            for k in range(lo, hi):
+                ie = dict(ienv)
+                ie[gen.target.id] = k
+                if all(self.val(c, ie) for c in gen.ifs):
+                    vals.append(self.val(g.elt, ie))
+            return any(vals) if e.func.id == 'any' else all(vals)
+        if isinstance(e, ast.Call) and isinstance(e.func, ast.Name) and e.func.id == 'bool' and len(e.args) == 1:
+            return bool(self.val(e.args[0], ienv))
+        if isinstance(e, ast.Call) and isinstance(e.func, ast.Name) and e.func.id == 'isinstance':
+            elts = e.args[1].elts if isinstance(e.args[1], ast.Tuple) else [e.args[1]]
+            names = [u(x).split('.')[-1] for x in elts]
+            if u(e.args[0]) != self.r:
+                raise Unsupported('isinstance of ' + u(e.args[0]))
+            return self.K in names or 'Regexp' in names
+        raise Unsupported('expression ' + u(e))
+
+    def run(self, stmts):
+        """('ret', value) or None"""
+        for st in stmts:
+            if isinstance(st, ast.Expr):
+                continue
+            if isinstance(st, (ast.Assign, ast.AnnAssign)):
+                tg = st.targets[0] if isinstance(st, ast.Assign) else st.target
+                if st.value is None or not isinstance(tg, ast.Name):
+                    continue
+                v = st.value
+                try:
+                    self.env[tg.id] = self.val(v, {})
+                except Unsupported:
+                    try:
+                        self.env[tg.id] = self.int(v, {})
+                    except Unsupported:
+                        try:
+                            self.env[tg.id] = ('word', self.word(v, {}))
+                        except Unsupported:
+                            self.env[tg.id] = ('child', self.child(v))
+                continue
+            if isinstance(st, ast.If):
+                r = self.run(st.body) if self.val(st.test, {}) else self.run(st.orelse)
+                if r is not None:
+                    return r
+                continue
+            if isinstance(st, ast.Return):
+                return ('ret', self.val(st.value, {}) if st.value is not None else None)
+            if isinstance(st, ast.Raise):
+                return ('raise', None)
+            if isinstance(st, ast.Pass):
+                continue
+            raise Unsupported('statement ' + type(st).__name__)
+        return None
+
+
+def _matcher_spec(K, n, get):
+    """the denotational answer from the same atoms"""
+    if K == 'Zero':
+        return False
+    if K == 'One':
+        return n == 0
+    if K == 'Symbol':
+        return get(('symbol',)) if n == 1 else False
+    if K == 'Sum':
+        return get(('M', 'left', 0, n)) or get(('M', 'right', 0, n))
+    if K == 'Concat':
+        return any(get(('M', 'left', 0, k)) and get(('M', 'right', k, n)) for k in range(0, n + 1))
+    if K == 'Iteration':
+        return n == 0 or any(get(('M', 'operand', 0, k)) and get(('M', 'self', k, n)) for k in range(1, n + 1))
+    raise Unsupported(K)
+
+
 def check_matcher(ctx, rep, f, rule='R-MODEL.M3m'):
-    """regexp_accepts_word: concatenation splits k in [0,|w|], star takes a non-empty prefix k in [1,|w|] and recurses on the
-    same star node, base cases |w| = 0 / w = symbol"""
-    w = f.pos_params[1].arg
-    r = f.pos_params[0].arg
-    for K, lo_want, second_want in (('Concat', 0, 'right'), ('Iteration', 1, 'self')):
-        t, body = _branch_for(ctx, f, K)
-        if body is None:
-            rep.violates(rule, f, 'def ' + f.name, 'no branch for {}'.format(K))
-            continue
-        comp, calls = _comprehension_with_calls(body, f.name)
-        if comp is None:
-            rep.undecided(rule, f, t, 'split comprehension not recognised')
-            continue
-        gen = comp.generators[0]
-        k = u(gen.target)
-        try:
-            ok = True
-            for n in range(0, 4):
-                rng = list(abseval.ev(gen.iter, {'len({})'.format(w): n}))
-                want = list(range(lo_want, n + 1))
-                if rng != want:
-                    ok = False
-                    rep.violates(rule, f, gen.iter, 'for |w|={} the {} case tries the split points {} but must try {}'.format(n, K, rng, want))
+    """regexp_accepts_word as a truth-table model: for every class of r, every |w| = 0..3 and every truth assignment of the
+    recursive calls on sub-words that the body consults, the value returned equals the denotational clause
+      0: false | 1: w = eps | a: w = a | r+s: M(r,w) or M(s,w) | r.s: exists k in [0,|w|]: M(r,w[:k]) and M(s,w[k:])
+      r*: w = eps or exists k in [1,|w|]: M(r,w[:k]) and M(r*,w[k:])
+    evaluated on the same atoms (atoms the body does not consult are quantified over as well)."""
+    decided = 0
+    for K in CLASSES:
+        bad = None
+        und = None
+        total = 0
+        for n in range(0, 4):
+            stack = [{}]
+            while stack and bad is None and und is None:
+                asg = stack.pop()
+                m = _MatcherModel(ctx, f, K, n, asg)
+                try:
+                    out = m.run(f.node.body)
+                except _NeedChoice as nc:
+                    for o in nc.options:
+                        d = dict(asg)
+                        d[nc.key] = o
+                        stack.append(d)
+                    continue
+                except Unsupported as e:
+                    und = str(e)
                     break
-        except Unsupported as e:
-            rep.undecided(rule, f, gen.iter, 'range outside the fragment: {}'.format(e))
-            continue
-        # the two calls: (first child, w[:k]) and (second, w[k:])
-        c1, c2 = sorted(calls, key=lambda c: c.col_offset)
-        a1 = (u(c1.args[0]), u(c1.args[1]).replace(' ', ''))
-        a2 = (u(c2.args[0]), u(c2.args[1]).replace(' ', ''))
-        first = '{}.left'.format(r) if K == 'Concat' else '{}.operand'.format(r)
-        second = '{}.right'.format(r) if K == 'Concat' else r
-        want1 = (first, '{}[:{}]'.format(w, k))
-        want2 = (second, '{}[{}:]'.format(w, k))
-        conj = isinstance(comp.elt, ast.BoolOp) and isinstance(comp.elt.op, ast.And)
-        if a1 == want1 and a2 == want2 and conj and ok:
-            rep.holds(rule, f, comp, '{}: some split k in [{},|w|] with the prefix matched by {} and the suffix by {}'.format(K, lo_want, first, second))
-        elif ok:
-            rep.violates(rule, f, comp, '{}: the split must match ({} on {}[:{}]) and ({} on {}[{}:]); found {} and {}'.format(K, first, w, k, second, w, k, a1, a2))
-    # base cases
-    for K, want in (('Zero', 'False'), ('One', 'len({}) == 0'.format(w)), ('Symbol', '{} == {}.symbol'.format(w, r))):
-        t, body = _branch_for(ctx, f, K)
-        if body is None:
-            rep.violates(rule, f, 'def ' + f.name, 'no branch for {}'.format(K))
-            continue
-        vals = [u(s.value).strip('()') for s in body if isinstance(s, ast.Assign)] + [u(s.value).strip('()') for s in body if isinstance(s, ast.Return) and s.value is not None]
-        alts = {want, '{}.symbol == {}'.format(r, w), 'not {}'.format(w), "{} == ''".format(w)} if K != 'Zero' else {want}
-        if any(v in alts for v in vals):
-            rep.holds(rule, f, t, 'base case {}: {}'.format(K, want), nontrivial=False)
+                total += 1
+                got = out[1] if out is not None and out[0] == 'ret' else None
+                # atoms of the specification the body never consulted: the answer must not depend on them either way
+                need = []
+
+                def get(key):
+                    if key in asg:
+                        return asg[key]
+                    need.append(key)
+                    return False
+                want_lo = _matcher_spec(K, n, get)
+                missing = sorted(set(need))
+                if missing:
+                    def get2(key):
+                        return asg[key] if key in asg else True
+                    want_hi = _matcher_spec(K, n, get2)
+                else:
+                    want_hi = want_lo
+                if want_lo != want_hi or bool(got) != bool(want_lo) or got is None:
+                    shown = ', '.join('{}={}'.format('M({},w[{}:{}])'.format(*k[1:]) if k[0] == 'M' else 'w==symbol', v) for k, v in sorted(asg.items(), key=repr))
+                    if want_lo != want_hi:
+                        bad = 'for a {} node and |w| = {} the result does not depend on {} although the language does (with {})'.format(K, n, ['M({},w[{}:{}])'.format(*k[1:]) if k[0] == 'M' else 'w==symbol' for k in missing], shown or 'no sub-results')
+                    else:
+                        bad = 'for a {} node and |w| = {} the matcher returns {} where the denotational clause gives {} (sub-results: {})'.format(K, n, got, want_lo, shown or 'none')
+        decided += 1
+        if und is not None:
+            rep.undecided(rule, f, 'isinstance(r, {})'.format(K), 'matcher body outside the truth-table fragment: {}'.format(und))
+        elif bad is not None:
+            rep.violates(rule, f, 'isinstance(r, {})'.format(K), bad)
         else:
-            rep.violates(rule, f, t, 'base case {} must be `{}`; found {}'.format(K, want, vals))
-    # star accepts the empty word
-    t, body = _branch_for(ctx, f, 'Iteration')
-    if body is not None:
-        fx = ctx.facts(f)
-        trues = [s for b in body for s in ast.walk(b) if isinstance(s, ast.Assign) and isinstance(s.value, ast.Constant) and s.value.value is True]
-        if trues and any(a[0] == 'empty' and a[1] == w and a[3] is True for a in fx.guard_atoms(fx.cfg.n_of(trues[0]))):
-            rep.holds(rule, f, trues[0], 'star accepts the empty word')
-        else:
-            rep.violates(rule, f, t, 'the star case must accept the empty word (`if len(w) == 0: True`)')
-    # sum is a disjunction of both children on the whole word
-    t, body = _branch_for(ctx, f, 'Sum')
-    if body is not None:
-        v = [s.value for s in body if isinstance(s, (ast.Assign, ast.Return)) and s.value is not None]
-        okk = False
-        if v and isinstance(v[0], ast.BoolOp) and isinstance(v[0].op, ast.Or) and len(v[0].values) == 2:
-            sig = sorted((u(c.args[0]), u(c.args[1])) for c in v[0].values if isinstance(c, ast.Call))
-            okk = sig == sorted([('{}.left'.format(r), w), ('{}.right'.format(r), w)])
-        if okk:
-            rep.holds(rule, f, t, 'sum: left or right on the whole word')
-        else:
-            rep.violates(rule, f, t, 'the sum case must be `match(left, w) or match(right, w)`')
+            rep.holds(rule, f, 'isinstance(r, {})'.format(K), 'for |w| = 0..3 and all {} truth assignments of the recursive sub-results the {} case equals its denotational clause'.format(total, K))
+    return decided
